@@ -57,31 +57,47 @@ impl E2ECampaign {
   }
 }
 
-/// Attribute the batches the loop wrote to the delivered key events. Returns per-event outputs and
-/// a note when the sequence of events the loop read differs from what was delivered.
-pub fn attribute(delivered: &[Event], trace: &[Item]) -> (Vec<Vec<Event>>, Option<String>) {
+/// Attribute what the loop wrote to the delivered key events. The written events (timer chords
+/// aside) are taken as one stream and dealt out to the events the loop read, in reading order,
+/// each read event receiving as many events as a reference mapper fed the same reads emits for it —
+/// so it does not matter whether the loop writes a step's output before or after reading further
+/// events, or how it cuts the stream into write calls. Whatever a read event that was never
+/// delivered (a phantom) receives is charged to the delivered step before it. Returns per-event
+/// outputs and a note when the read sequence differs from the delivered one.
+pub fn attribute(layout: &Layout, delivered: &[Event], trace: &[Item]) -> (Vec<Vec<Event>>, Option<String>) {
   let mut steps: Vec<Vec<Event>> = vec![vec![]; delivered.len()];
-  let mut next = 0usize;           // next delivered event expected to be read
-  let mut cur: Option<usize> = None;
-  let mut after_timeout = false;
   let mut note = None;
+  // the reads, each tagged with the delivered step it is charged to
+  let mut reads: Vec<(Event, usize)> = vec![];
+  let mut next = 0usize;
+  let mut cur = 0usize;
+  let mut written: Vec<Event> = vec![];
+  let mut after_timeout = false;
   for it in trace {
     match it {
       Item::Poll { res, .. } => { after_timeout = matches!(res, PollRes::TimedOut); }
       Item::NextK { res: Some(e), .. } => {
         after_timeout = false;
-        if next < delivered.len() && *e == delivered[next] { cur = Some(next); next += 1; }
+        if next < delivered.len() && *e == delivered[next] { cur = next; next += 1; }
         else if note.is_none() { note = Some(format!("the loop read {} where the delivered stream has {}", ev_str(e), delivered.get(next).map(ev_str).unwrap_or("nothing more".into()))); }
-        // an event that was never delivered: whatever it causes is charged to the step before it
+        reads.push((e.clone(), cur));
       }
-      Item::Send { evs, .. } => {
-        if after_timeout { continue; } // a timer chord: transient, owned by C11
-        match cur { Some(i) => steps[i].extend(evs.iter().cloned()), None => { if let Some(s) = steps.first_mut() { s.extend(evs.iter().cloned()); } } }
-      }
+      Item::Send { evs, .. } => { if !after_timeout { written.extend(evs.iter().cloned()); } } // a batch after a time-out is a timer chord (C11)
       _ => {}
     }
   }
   if next < delivered.len() && note.is_none() { note = Some(format!("the loop never read {} (event {} of {})", ev_str(&delivered[next]), next, delivered.len())); }
+  if steps.is_empty() { return (steps, note); }
+  let mut reference = crate::key_transforms::Mapper::for_layout(layout);
+  let mut pos = 0usize;
+  for (ri, (e, charged)) in reads.iter().enumerate() {
+    let n = reference.step(e.clone()).events.len();
+    let take = if ri + 1 == reads.len() { written.len() - pos.min(written.len()) } else { n.min(written.len() - pos.min(written.len())) };
+    let end = (pos + take).min(written.len());
+    steps[*charged].extend(written[pos.min(written.len())..end].iter().cloned());
+    pos = end;
+  }
+  if reads.is_empty() && !written.is_empty() { steps[0].extend(written.iter().cloned()); }
   (steps, note)
 }
 
@@ -89,7 +105,7 @@ pub fn execute_e(case: &CaseE, en: &En, record: Option<u64>, obs: &mut Obs) -> R
   let c = case.b.clone();
   let out = catch_unwind(AssertUnwindSafe(|| { let mut bl = crate::wiresim::PipeLayer::new(); crate::loopsim::execute(&c, record, Some(&mut bl)) })).map_err(|e| panic_msg(&e))?;
   let delivered: Vec<Event> = case.a.ops.iter().filter_map(|o| if let Op::Ev(e) = o { Some(e.clone()) } else { None }).collect();
-  let (steps, _note) = attribute(&delivered, &out.trace);
+  let (steps, _note) = attribute(&case.a.layout, &delivered, &out.trace);
   let mut pre = Precomputed { steps, i: 0 };
   let a = case.a.clone(); let en2 = *en;
   let v = catch_unwind(AssertUnwindSafe(|| execute_with(&a, &en2, obs, &mut pre))).map_err(|e| format!("oracle panicked: {}", panic_msg(&e)))?;
@@ -143,7 +159,7 @@ impl Campaign for E2ECampaign {
     acc.probe_n("real_driver_polls_cross_checked", s.real_polls_compared); acc.probe_n("wakeup_with_two_or_more_events", s.multi_event_wakeups);
     acc.count("steps", obs.steps); acc.count("sim_us", out.sim_us); acc.count("mappings_fired", obs.fired); acc.count("driver_calls", out.trace.len() as u64);
     let delivered: Vec<Event> = case.a.ops.iter().filter_map(|o| if let Op::Ev(e) = o { Some(e.clone()) } else { None }).collect();
-    if attribute(&delivered, &out.trace).1.is_some() { acc.count("runs_where_the_read_sequence_differs_from_the_delivered_one", 1); }
+    if attribute(&case.a.layout, &delivered, &out.trace).1.is_some() { acc.count("runs_where_the_read_sequence_differs_from_the_delivered_one", 1); }
     let nt = nontrivial(self.inner.property, &obs);
     let mut hh = H::new(); hh.u(case.a.hash()); hh.u(case.b.hash());
     let sample = if ctx.want_sample { Some(case.json()) } else { None };
